@@ -217,9 +217,14 @@ def strip_lean_comments(src):
 TIE_NAMES = {}
 
 
+KNOT_FNS = {"Operation::from_value", "Operation::evaluate", "LazyOperation::from_value", "LazyOperation::evaluate", "DataOperation::from_value", "DataOperation::evaluate",
+            "Raw::from_value", "Raw::evaluate", "Parsed::from_value", "Parsed::from_values", "Parsed::evaluate", "Operator::execute", "LazyOperator::execute", "DataOperator::execute", "apply"}
+
+
 def tie_module(rs):
     """file name (under lean/JL/Tie) of the tie theorem of a translated function: the Lean name the translator gives it"""
     if rs.startswith("table:"): return "tables"
+    if rs in KNOT_FNS: return "knot"          # the parse / evaluate layer is tied as a whole: JL.Tie.apply : Gen.apply = JL.apply
     return TIE_NAMES.get(rs, rs)
 
 
@@ -244,6 +249,12 @@ def tie_side(pid, fn_status, res):
             continue
         todo.append(rs)
     res["lost_translation"] = [rs for rs, st in sorted(mine.items()) if not st.get("translated") and os.path.exists(os.path.join(jl.LEAN, "JL", "Tie", tie_module(rs) + ".lean"))]
+    anything_lost = [rs for rs, st in fn_status.items() if not st.get("translated")] + [r for rs, st in fn_status.items() for r in st.get("skipped", [])]
+    if anything_lost and any(tie_module(rs) == "knot" for rs in todo):
+        for rs in [r for r in todo if tie_module(r) == "knot"]:
+            todo.remove(rs)
+            res["tie_functions"][rs] = "not re-checked: the theorem about the whole parse/evaluate layer (JL.Tie.apply) needs every function translated, and %s left the translated subset" % ", ".join(sorted(set(anything_lost))[:4])
+            if rs not in res["lost_translation"]: res["lost_translation"].append(rs)
     if not todo: return built
     ok, out = jl.lake_build(sorted({"JL.Tie." + tie_module(rs) for rs in todo}))
     failed = set(re.findall(r"✖ \[\d+/\d+\] Building JL\.Tie\.(\w+)", out))
